@@ -228,3 +228,9 @@ def r16_4(ctx):
 def r16_5(ctx):
     from .c17 import r17_2
     r17_2(ctx)
+
+
+@rule("R16.6", min_instances=6, desc="set_der on a concatenation of states hands every state its own rows of the right-hand side (for_all_primitives simulated; shared with C09: R09.11)")
+def r16_6(ctx):
+    from .c09 import r09_11
+    r09_11(ctx)
